@@ -1,6 +1,8 @@
 """C06 - size inference picks the smallest format that holds the values exactly."""
 from . import sizes, conv
 
+from . import routes, fresh, flags, sizes, conv, dtype, carriers, funcs, ops, strings, pipeline, widths
+
 EXPLANATION = (
     "Decided clauses: R1 when n_int is given with one other size the third follows by n_word = n_int + n_frac + [signed] in _init_size and resize (term equality, with the "
     "resolved signedness); R2 the size-assembly block of set_best_sizes normalises, on every value path, to n_frac = min(limit - sign - n_int, exact) with limit = n_word_max "
@@ -20,3 +22,5 @@ def run(ck):
     sizes.returned_sizes_are_callers(ck, "C06.R5")
     conv.sizes_use_transformed_value(ck, "C06.R4")
     sizes.resize_rules(ck, {"nint": "C02.R3"})
+    ops.conversions(ck, "C16.R2")                     # the object returns the supplied value: read-back for inferred (also negative) n_frac
+    fresh.no_class_state_writes(ck, "C20.R7")         # inference starts from the same state for every object
